@@ -26,6 +26,118 @@ import tempfile
 import warnings
 from pathlib import Path
 
+REPO_PREFIXES = ('t4_geom_convert', 'MIP')
+
+
+class LogEnviron(os._Environ):      # pylint: disable=protected-access
+    '''os.environ that records the variables looked up by code of the
+    converter (frames whose file lies under <repo>/t4_geom_convert or
+    <repo>/MIP); look-ups made by the standard library on its own account are
+    not recorded.'''
+
+    def __init__(self, base, repo, log):
+        # share the underlying data of the real environment
+        self.__dict__.update(base.__dict__)
+        self._c18_repo = repo
+        self._c18_log = log
+
+    def __getitem__(self, key):
+        frame = sys._getframe(1)    # pylint: disable=protected-access
+        hops = 0
+        while frame is not None and hops < 12:
+            name = frame.f_code.co_filename
+            if name.endswith(('os.py', '_collections_abc.py')) \
+                    or name.startswith('<frozen'):
+                frame = frame.f_back
+                hops += 1
+                continue
+            if name.startswith(self._c18_repo) and any(
+                    f'/{p}/' in name for p in REPO_PREFIXES):
+                self._c18_log.append(
+                    f'{key} ({os.path.basename(name)}:'
+                    f'{frame.f_code.co_name})')
+            break
+        return os._Environ.__getitem__(self, key)
+
+
+def _fingerprint(value, depth=0):
+    import types
+    import re as _re
+    if isinstance(value, (types.ModuleType, types.FunctionType,
+                          types.BuiltinFunctionType, types.MethodType,
+                          staticmethod, classmethod, property)):
+        return 'callable/module'
+    if isinstance(value, type):
+        if depth >= 1:
+            return 'class'
+        items = []
+        for name, sub in sorted(vars(value).items()):
+            if name.startswith('__') and name.endswith('__'):
+                continue
+            items.append((name, _fingerprint(sub, depth + 1)))
+        return ('class', tuple(items))
+    if isinstance(value, _re.Pattern):
+        return ('re', value.pattern)
+    if isinstance(value, (int, float, str, bytes, bool, type(None))):
+        return repr(value)
+    if isinstance(value, (list, tuple, set, frozenset)):
+        if depth >= 2:
+            return (type(value).__name__, len(value))
+        parts = [_fingerprint(v, depth + 1) for v in value]
+        if isinstance(value, (set, frozenset)):
+            parts = sorted(map(repr, parts))
+        return (type(value).__name__, tuple(parts))
+    if isinstance(value, dict):
+        if depth >= 2:
+            return ('dict', len(value))
+        return ('dict', tuple((repr(k), _fingerprint(v, depth + 1))
+                              for k, v in value.items()))
+    state = getattr(value, '__dict__', None)
+    if isinstance(state, dict) and depth < 2:
+        return (type(value).__name__,
+                tuple((k, _fingerprint(v, depth + 1))
+                      for k, v in sorted(state.items())))
+    return type(value).__name__
+
+
+def module_state():
+    '''Fingerprint of every module-level and class-level binding of the
+    converter's modules (a runtime counterpart of the audit's CStore RModule /
+    RGlobal / RClass entries).'''
+    snap = {}
+    for name, module in list(sys.modules.items()):
+        if module is None or not name.split('.')[0] in REPO_PREFIXES:
+            continue
+        for attr, value in list(vars(module).items()):
+            if attr.startswith('__') and attr.endswith('__'):
+                continue
+            if type(value).__module__.startswith('shim_peg'):
+                continue        # the harness's parser replacing TatSu's
+            try:
+                snap[f'{name}.{attr}'] = repr(_fingerprint(value))
+            except Exception:       # pylint: disable=broad-except
+                snap[f'{name}.{attr}'] = 'unprintable'
+    return snap
+
+
+def module_changes(before, after):
+    out = []
+    modules_before = {k.rpartition('.')[0] for k in before}
+    for key, val in after.items():
+        if key.rpartition('.')[0] not in modules_before:
+            continue            # a module imported lazily by this run
+        if key not in before:
+            out.append(f'{key} (new)')
+        elif before[key] != val:
+            out.append(f'{key} (changed)')
+    for key in before:
+        if key not in after:
+            out.append(f'{key} (deleted)')
+    return sorted(out)
+
+
+_STATE = {}       # last module-state snapshot (reused as the next 'before')
+
 SENTINEL = '// C18 sentinel: no output written\n'
 
 
@@ -68,6 +180,11 @@ def one_run(run, directory):
     buf = io.StringIO()
     old_argv = sys.argv
     sys.argv = ['t4_geom_convert'] + args
+    env_log = []
+    real_environ = os.environ
+    repo = os.path.realpath(os.environ.get('T4GC_REPO', '/repo'))
+    state_before = _STATE.get('last') or module_state()
+    os.environ = LogEnviron(real_environ, repo, env_log)
     try:
         with contextlib.redirect_stdout(buf), contextlib.redirect_stderr(buf), \
                 warnings.catch_warnings():
@@ -80,8 +197,13 @@ def one_run(run, directory):
             except Exception as exc:    # pylint: disable=broad-except
                 res['exc'], res['msg'] = type(exc).__name__, str(exc)[:200]
     finally:
+        os.environ = real_environ
         sys.argv = old_argv
         os.chdir(old_cwd)
+    res['env_reads'] = sorted(set(env_log))
+    state_after = module_state()
+    res['module_changes'] = module_changes(state_before, state_after)
+    _STATE['last'] = state_after
     text = out.read_text(encoding='utf-8', errors='surrogateescape') \
         if out.exists() else None
     if text == SENTINEL:
@@ -124,6 +246,7 @@ def main():
             # instead of a cold start (a sample of decks is also run in
             # cold-started processes by the parent)
             import t4_geom_convert.main     # noqa: F401  pylint: disable=W0611
+            _STATE['last'] = module_state()     # inherited by every child
             for k, run in enumerate(jobs['runs']):
                 directory = root / f'run{k}'
                 directory.mkdir()
